@@ -36,6 +36,9 @@ pub struct Scenario {
     /// Arguments (relative paths of files or directories) in order.
     pub args: Vec<String>,
     pub marked: bool,
+    /// Output directory given as a path relative to the working directory (None = an absolute scratch path).
+    #[serde(default)]
+    pub out_rel: Option<String>,
 }
 
 #[derive(Clone, Debug, Default, Serialize, Deserialize, PartialEq, Eq)]
@@ -331,7 +334,22 @@ pub fn draw(seed: u64, i: u64, tasks: &[Task], thorough: bool) -> Scenario {
         let j = rng.below(k as u64 + 1) as usize;
         creation_order.swap(k, j);
     }
-    Scenario { task_id: task.id.clone(), equivalence, options, files, creation_order, args, marked }
+    // sometimes the output directory lives next to the inputs under a name that is a prefix of an input's name
+    let mut out_rel = None;
+    if rng.pct(20) {
+        let cands: Vec<String> = files.iter().filter(|f| f.meant != "junk").map(|f| f.path.split('/').next().unwrap().to_string()).collect();
+        if !cands.is_empty() {
+            let c = rng.pick(&cands).clone();
+            let k = 1 + rng.below(c.len() as u64) as usize;
+            let mut name: String = c.chars().take(k).collect();
+            name = name.trim_end_matches('.').to_string();
+            let clash = name.is_empty() || name == "." || name == ".." || files.iter().any(|f| f.path == name || f.path.starts_with(&format!("{name}/")));
+            if !clash {
+                out_rel = Some(match rng.below(3) { 0 => format!("./{name}"), 1 => format!("{name}/"), _ => name });
+            }
+        }
+    }
+    Scenario { task_id: task.id.clone(), equivalence, options, files, creation_order, args, marked, out_rel }
 }
 
 fn materialise(s: &Scenario, root: &Path, reverse: bool) {
@@ -354,11 +372,15 @@ pub struct Out {
 }
 
 fn verify(bins: &Binaries, options: &[String], file_args: &[String], cwd: &Path, out: &Path, env: &Env) -> Out {
+    verify_out(bins, options, file_args, cwd, out, None, env)
+}
+
+fn verify_out(bins: &Binaries, options: &[String], file_args: &[String], cwd: &Path, out: &Path, out_arg: Option<&str>, env: &Env) -> Out {
     let mut args = vec!["verify".to_string()];
     args.extend(options.iter().cloned());
     args.push("--no-proof-search".into());
     args.push("--save-problems".into());
-    args.push(out.to_string_lossy().into_owned());
+    args.push(out_arg.map(str::to_string).unwrap_or_else(|| out.to_string_lossy().into_owned()));
     args.extend(file_args.iter().cloned());
     let po = e2::run_anthem(bins, &args, cwd, None, env, &[], 120).unwrap_or_else(|e| harness_error(&format!("cannot run anthem: {e}")));
     Out { ok: po.code == Some(0), files: read_dir_files(out), stderr: String::from_utf8_lossy(&po.stderr).into_owned() }
@@ -382,8 +404,19 @@ pub fn check_once(bins: &Binaries, s: &Scenario, env: &Env, reverse_creation: bo
     let mut runs = 0;
     let root = scratch.lock().unwrap().fresh_dir("lay");
     materialise(s, &root, reverse_creation);
-    let out = scratch.lock().unwrap().fresh_dir("out");
-    let got = verify(bins, &s.options, &s.args, &root, &out, env);
+    let (out, got) = match &s.out_rel {
+        Some(rel) => {
+            let out = root.join(norm(rel));
+            fs::create_dir_all(&out).expect("create relative output dir");
+            let got = verify_out(bins, &s.options, &s.args, &root, &out, Some(rel), env);
+            (out, got)
+        }
+        None => {
+            let out = scratch.lock().unwrap().fresh_dir("out");
+            let got = verify(bins, &s.options, &s.args, &root, &out, env);
+            (out, got)
+        }
+    };
     runs += 1;
     let roles = model(s);
     let canon = canonical_files(s, &roles);
@@ -612,6 +645,7 @@ struct Tally {
     dot_dirs: u64,
     root_arg: u64,
     spelled: u64,
+    out_rel: u64,
     dir_modes: BTreeMap<String, u64>,
     by_equivalence: BTreeMap<String, u64>,
     distinct: BTreeSet<String>,
@@ -679,6 +713,9 @@ pub fn main(args: &Args) {
             if s.args.iter().any(|a| *a != norm(a)) {
                 local.spelled += 1;
             }
+            if s.out_rel.is_some() {
+                local.out_rel += 1;
+            }
             *local.by_equivalence.entry(s.equivalence.clone()).or_insert(0) += 1;
             local.distinct.insert(format!("{:?}|{:?}|{}", s.args, s.files.iter().map(|f| (&f.path, &f.meant)).collect::<Vec<_>>(), s.task_id));
             for (env, rev) in envs_for(seed, i, thorough, has_dir) {
@@ -721,6 +758,7 @@ pub fn main(args: &Args) {
             t.dot_dirs += local.dot_dirs;
             t.root_arg += local.root_arg;
             t.spelled += local.spelled;
+            t.out_rel += local.out_rel;
             for (k, v) in local.dir_modes {
                 *t.dir_modes.entry(k).or_insert(0) += v;
             }
@@ -758,18 +796,34 @@ pub fn main(args: &Args) {
         if !reported.insert(v.kind.clone()) {
             continue;
         }
+        let original = v.clone();
         let min = minimise(&bins, v, &scratch);
         let path = replays_dir.join(format!("C20-{}-{}-{}.json", seed, min.index, min.kind));
         fs::write(&path, serde_json::to_string_pretty(&min).unwrap()).unwrap();
-        let confirm = std::process::Command::new(std::env::current_exe().unwrap()).args(["c20-replay", path.to_str().unwrap(), "--quiet"]).output().unwrap();
+        // an environment-level violation should replay exactly; if the tree under test has a source of
+        // nondeterminism the simulator does not own (its own threads, say), a few attempts may be needed
+        let mut confirmed_after = 0;
+        for attempt in 1..=6 {
+            let confirm = std::process::Command::new(std::env::current_exe().unwrap()).args(["c20-replay", path.to_str().unwrap(), "--quiet"]).output().unwrap();
+            if confirm.status.code() == Some(1) {
+                confirmed_after = attempt;
+                break;
+            }
+        }
         println!("violation kind={} scenario={} argv={:?}", min.kind, min.index, min.scenario.args);
         println!("  files: {:?}", min.scenario.files.iter().map(|f| f.path.as_str()).collect::<Vec<_>>());
         println!("  {}", min.detail);
         println!("  {}", min.note);
-        if confirm.status.code() == Some(1) {
+        if confirmed_after == 1 {
+            println!("VIOLATION property=C20 replay={}", path.display());
+        } else if confirmed_after > 1 {
+            println!("  note: reproduced on attempt {confirmed_after} of 6: the tree under test has a source of nondeterminism the simulator does not own");
             println!("VIOLATION property=C20 replay={}", path.display());
         } else {
-            harness_error(&format!("violation did not reproduce from {} (exit {:?})", path.display(), confirm.status.code()));
+            // keep the observation itself: two runs of the same thing disagreed, which no environment we control explains
+            fs::write(&path, serde_json::to_string_pretty(&original).unwrap()).unwrap();
+            println!("  note: observed once and not reproduced in 6 replays; the observation (both outputs) is recorded in the replay file. The tree under test has a source of nondeterminism the simulator does not own");
+            println!("VIOLATION property=C20 replay={}", path.display());
         }
     }
     for l in &known_lines {
@@ -794,6 +848,7 @@ pub fn main(args: &Args) {
             "scenarios_with_dot_directories": tally.dot_dirs,
             "scenarios_with_root_as_argument": tally.root_arg,
             "scenarios_with_respelled_arguments": tally.spelled,
+            "scenarios_with_output_dir_next_to_inputs": tally.out_rel,
             "scenarios_where_model_expects_an_error": tally.expected_errors,
             "scenarios_by_equivalence": tally.by_equivalence,
             "directory_order_faults_injected_runs": tally.dir_modes,
